@@ -216,11 +216,7 @@ func gen(tier string, rng *h.Rng, emit func(string)) {
 	}
 	for n := 1; n <= 3; n++ {
 		assignments(propOutcomes, n, func(a []string) {
-			names := []string{callNames[k%6]}
-			if thorough || n <= 2 {
-				names = callNames
-			}
-			for _, nm := range names {
+			for _, nm := range callNames {
 				emit(fmt.Sprintf("seq %s %s/%s/%s", cfg(), nm, callArgs(nm, rng, k, false), strings.Join(a, ",")))
 				k++
 			}
